@@ -22,11 +22,10 @@ rm -f $WT/$PKG/zz_demo_test.go
 /verif/tools/pinned_fast.sh $WT > $DEST/pinned.log 2>&1; PINNED=$?
 CAUGHT=""
 for p in $(python3 -c "import json;print(' '.join(c['property_id'] for c in json.load(open('/verif/MANIFEST.json'))['checks']))"); do
-  STFS_REPO=$WT /verif/bin/stfsvc check $p > $DEST/check_$p.log 2>&1; rc=$?
+  STFS_OUT=/tmp/seedout STFS_REPO=$WT /verif/bin/stfsvc check $p > $DEST/check_$p.log 2>&1; rc=$?
   if [ $rc -ne 0 ]; then CAUGHT="$CAUGHT $p(rc=$rc)"; fi
 done
 # evidence files were rewritten against the scratch tree: restore them
-git -C /verif checkout -- evidence 2>/dev/null
 git -C /repo worktree remove --force $WT
 python3 - "$ID" "$PROP" "$PKG" "$CLEAN" "$BUILD" "$PATCHED" "$PINNED" "$CAUGHT" <<'PY'
 import json,sys
